@@ -861,7 +861,7 @@ impl<'a> FormatParser<'a> {
                     Field::DayName(NameStyle::Lower)
                 }
             };
-        } else if remain.len() >= 2 {
+        } else if CaseInsensitive::starts_with(remain, b"dy") {
             return match &remain[0..2] {
                 b"DY" => {
                     self.advance(2);
@@ -958,7 +958,14 @@ impl<'a> FormatParser<'a> {
                             }
                             b'a' | b'A' | b'Y' | b'y' => {
                                 self.back(1);
-                                self.parse_day_name()
+                                match self.parse_day_name() {
+                                    // Neither 'DAY' nor 'DY': a lone 'D'.
+                                    Field::Invalid => {
+                                        self.advance(1);
+                                        Field::DayOfWeek
+                                    }
+                                    field => field,
+                                }
                             }
                             _ => Field::DayOfWeek,
                         },
